@@ -163,6 +163,7 @@ func (u *upgrader) upgrade(ctx context.Context, t transport.Transport, maconn ma
 		conn = pconn
 	} else if ipnet.ForcePrivateNetwork {
 		log.Error("tried to dial with no Private Network Protector but usage of Private Networks is forced by the environment")
+		conn.Close()
 		return nil, ipnet.ErrNotInPrivateNetwork
 	}
 
